@@ -342,6 +342,26 @@ def drv_pipeline(tier, rng):
     N = 300 if tier == 'quick' else 6000
     for _ in range(N):
         groups.append([pcase(pipeline.pipeline_case(rng))])
+    # fatigue on many values at once (8 alternatives x 6 criteria, no bounding): both blur directions must occur (C17)
+    for _ in range(6 if tier == 'quick' else 60):
+        req = pipeline.gen_data(rng, rng.choice(pipeline.METHODS), n=5, m=4, extra=5, positive=True)
+        for a in req['knownAlternatives']:
+            for c in a['criteria']:
+                a['criteria'][c] = pipeline.PU * rng.choice([1, 2, 3, 5, 8])
+        req['biases'] = [{'name': 'fatigue', 'props': {'function': 'const', 'params': {'value': rng.choice([pipeline.PU // 4, pipeline.PU // 2, pipeline.PU])},
+                                                       'randomSeed': rng.randint(0, 999)}}]
+        groups.append([pcase(req)])
+    # probability orderings over many seeds (C15): importance 1 : 4 : 16, one criterion omitted
+    for ordering in ('weakestByProbability', 'strongestByProbability'):
+        base = pipeline.gen_data(rng, 'majorityHeuristic', n=2, m=3, extra=0, declared=False)
+        base['criteria'] = [{'id': c, 'type': 'gain'} for c in ('c1', 'c2', 'c3')]
+        base['methodParameters'] = {'weights': {'c1': pipeline.PU, 'c2': 4 * pipeline.PU, 'c3': 16 * pipeline.PU}, 'drawResolution': 'allow'}
+        g = []
+        for sd in range(300 if tier == 'quick' else 3000):
+            r = copy.deepcopy(base)
+            r['biases'] = [{'name': 'criteriaOmission', 'props': {'ratio': pipeline.PU // 2, 'max': 1, 'ordering': ordering, 'randomSeed': 17 + sd * 101}}]
+            g.append(pcase(r, probe=False, methodref=False, group={'id': 'x', 'rel': 'c15freq', 'p': 'C15', 'ordering': ordering}))
+        groups.append(g)
     # single omissions that do remove something (second pass compares with the reduced request, C15)
     for mth in pipeline.METHODS:
         for _ in range(10 if tier == 'quick' else 150):
@@ -725,6 +745,31 @@ def drv_distil(tier, rng):
     return groups
 
 
+# ---------------------------------------------------------------- level series with decimal (non-dyadic) parameters
+def drv_levels_decimal(tier, rng):
+    """contract only (monotone, finite, inside the range, rejected iff out of the documented domain): the exact series
+    is decided on the dyadic grid of MC_Levels"""
+    DU = 1000
+    groups = []
+    coefs = [1, 300, 999, 100, 700, 500, 0, 1000]
+    bounds = [0, 1, 100, 250, 333, 500, 900, 999, 1000, 1001]
+    data = [([{'id': 'c1', 'type': 'gain', 'valuesRange': {'min': 0, 'max': 10 * DU}}, {'id': 'c2', 'type': 'cost'}],
+             [{'id': 'a1', 'criteria': {'c1': 2 * DU, 'c2': 7 * DU}}, {'id': 'a2', 'criteria': {'c1': 9 * DU, 'c2': -3 * DU}}, {'id': 'a3', 'criteria': {'c1': 5 * DU, 'c2': 1 * DU}}])]
+    for _ in range(150 if tier == 'quick' else 2500):
+        d = rng.choice(['inc', 'dec'])
+        mode = rng.choice(['idealMultipliedCoefficient', 'idealAdditiveCoefficient' if d == 'inc' else 'idealSubtractiveCoefficient'])
+        co, lo, hi = rng.choice(coefs), rng.choice(bounds), rng.choice(bounds)
+        if d == 'inc':
+            valid = 0 < co < DU and 0 <= lo <= DU and 0 <= hi <= DU
+        else:
+            valid = 0 < co < DU and 0 < lo <= DU and 0 < hi <= DU
+        crits, alts_ = rng.choice(data)
+        groups.append([{'fam': 'Levels', 'unit': DU, 'valid': valid, 'exact': False, 'nocount': True,
+                        'lv': {'dir': d, 'function': mode, 'params': {'coefficient': co, 'minValue': lo, 'maxValue': hi},
+                               'criteria': crits, 'alternatives': alts_, 'considered': {'int': 2}}}])
+    return groups
+
+
 def nt_ties(o):
     """non-trivial for ranking shape: at least two entries and at least one tie or two levels"""
     r = o.get('resp', {}).get('result', [])
@@ -749,7 +794,7 @@ FAMILIES = {
         'mc_cfg': {'quick': 'MC_Levels_quick.cfg', 'thorough': 'MC_Levels_thorough.cfg'},
         'mode': 'levels',
         'trace': 'Trace_Levels',
-        'drivers': [],
+        'drivers': [drv_levels_decimal],
     },
     'aspect': {
         'mc': 'MC_AspectElim',
